@@ -140,7 +140,11 @@ def fd_definitions(fd, d: Def):
     flows = [fd.FlowDefinition(from_process_name=f["src"], to_process_name=f["dst"], dim_letters=tuple(f["letters"]), name_override=f["override"]) for f in d.flows]
     stocks = []
     for s in d.stocks:
-        kw = dict(name=s["name"], process_name=s["process"], dim_letters=tuple(s["letters"]), subclass=getattr(fd, s["cls"]), time_letter=s["time_letter"], solver=s["solver"])
+        sub_cls = getattr(fd, s["cls"])
+        if s.get("user_subclass"):
+            # the user's own stock class, derived from the shipped one (extra methods, nothing overridden)
+            sub_cls = s.setdefault("cls_obj", type("My" + s["cls"], (sub_cls,), {"describe": lambda self: f"{self.name} ({type(self).__name__})"}))
+        kw = dict(name=s["name"], process_name=s["process"], dim_letters=tuple(s["letters"]), subclass=sub_cls, time_letter=s["time_letter"], solver=s["solver"])
         if s["lm"] is not None:
             kw["lifetime_model_class"] = getattr(fd, s["lm"])
         stocks.append(fd.StockDefinition(**kw))
